@@ -13,6 +13,7 @@ pub fn dispatch(cmd: &str, c: &Value) -> Value {
         "lz_roundtrip" => lz_roundtrip(c),
         "segment" => segment(c),
         "archive_ops" => archive_ops(c),
+        "open_prefix" => open_prefix(c),
         #[cfg(ekg_ragc_verif)]
         "range_query" => range_query(c),
         _ => json!({"error": format!("unknown command {}", cmd)}),
@@ -238,4 +239,22 @@ pub fn archive_ops(c: &Value) -> Value {
     let file = std::fs::read(&path).unwrap_or_default();
     let _ = std::fs::remove_file(&path);
     json!({ "ok": ok, "why": why, "file": file })
+}
+
+// ---------------------------------------------------------------- C14 truncated archives
+pub fn open_prefix(c: &Value) -> Value {
+    let file = bytes(&c["file"]);
+    let n = c["n"].as_u64().unwrap() as usize;
+    let path = tmp_path("c14");
+    std::fs::write(&path, &file[..n]).unwrap();
+    let mut ar = ragc_common::Archive::new_reader();
+    let a = ar.open(&path);
+    let archive_ok = a.is_ok();
+    drop(ar);
+    let r = std::panic::catch_unwind(|| ragc_core::Decompressor::open(path.to_str().unwrap(), ragc_core::DecompressorConfig { verbosity: 0 }).is_ok());
+    let _ = std::fs::remove_file(&path);
+    match r {
+        Ok(opened) => json!({ "archive_open_ok": archive_ok, "opened": opened }),
+        Err(_) => json!({ "panic": "Decompressor::open panicked", "archive_open_ok": archive_ok }),
+    }
 }
